@@ -11,6 +11,8 @@ over all monomorphisations and macro expansions), names each never-entered regio
 and classifies it with lib/props/<cxx>_cov_exclusions.json:
   "functions": [{file, fn, reason, owner?}]          a whole fn item (never instantiated or never executed)
   "regions":   [{file, fn, line, reason, owner?}]    one region (line = first line of the region)
+  "instances": [{file, pattern, reason, owner?}]     never-run instances (monomorphisations / macro expansions) of an item
+                                                     other instances of which did run; pattern = regex on the readable name
   owner = another property whose check is responsible for it (class (b) of the coverage task), absent = unreachable /
   out of scope (class (c)).
 Writes out/cov/<Cxx>_surface.json and, under the label, docs/coverage/<Cxx>_regions.json (the summary the check embeds in
@@ -145,7 +147,9 @@ def measure(prop, excl):
         fns = [(n, a, b) for n, a, b in C.source_fns(path) if not any(t0 <= a <= t1 for t0, t1 in tests)]
         rec = {"regions": 0, "entered": 0, "unentered": [], "other_property": [], "excluded": [],
                "never_instantiated": [], "never_instantiated_other_property": [], "never_instantiated_excluded": [],
-               "instances": 0, "instances_never_executed": []}
+               "instances": 0, "instances_never_executed": [], "instances_never_executed_other_property": [],
+               "instances_never_executed_excluded": []}
+        ex_in = [(re.compile(e["pattern"]), e) for e in excl.get("instances", []) if e["file"] == rel]
         # monomorphisations / macro expansions of one source item that were compiled into the harness but never run
         # although OTHER instances of the same item were (the summed region counts hide them)
         for line, names in sorted(inst.get(path, {}).items()):
@@ -154,8 +158,22 @@ def measure(prop, excl):
             rec["instances"] += len(names)
             if any(c > 0 for c in names.values()):
                 for nm, c in sorted(names.items()):
-                    if c == 0:
-                        rec["instances_never_executed"].append({"line": line, "instance": nm})
+                    if c != 0:
+                        continue
+                    # rustc's record for "this generic item, never instantiated in its own crate": not an instance
+                    if nm.endswith(" ^") and any(len(o.split()) > len(nm.split()) for o in names):
+                        continue
+                    item = {"line": line, "instance": nm}
+                    hit = next((e for rx, e in ex_in if rx.search(nm)), None)
+                    if hit:
+                        item["reason"] = hit["reason"]
+                        if hit.get("owner"):
+                            item["owner"] = hit["owner"]
+                            rec["instances_never_executed_other_property"].append(item)
+                        else:
+                            rec["instances_never_executed_excluded"].append(item)
+                    else:
+                        rec["instances_never_executed"].append(item)
 
         def owner_of(line):
             best = None
@@ -216,7 +234,9 @@ def summary(rep):
             "fns_never_instantiated_other_property": sum(len(r["never_instantiated_other_property"]) for r in rs),
             "fns_never_instantiated_excluded": sum(len(r["never_instantiated_excluded"]) for r in rs),
             "compiled_instances": sum(r["instances"] for r in rs),
-            "instances_never_executed_of_items_otherwise_executed": sum(len(r["instances_never_executed"]) for r in rs)}
+            "instances_never_executed_in_scope": sum(len(r["instances_never_executed"]) for r in rs),
+            "instances_never_executed_other_property": sum(len(r["instances_never_executed_other_property"]) for r in rs),
+            "instances_never_executed_excluded": sum(len(r["instances_never_executed_excluded"]) for r in rs)}
 
 
 def fmt(u):
@@ -246,6 +266,13 @@ if __name__ == "__main__":
         cur[label][key] = {f: [fmt(u) for u in r[key]] for f, r in rep["files"].items() if r[key]}
     cur[label]["instances_never_executed"] = {f: [f"line {u['line']}: {u['instance']}" for u in r["instances_never_executed"][:60]]
                                               for f, r in rep["files"].items() if r["instances_never_executed"]}
+    for key in ("instances_never_executed_other_property", "instances_never_executed_excluded"):
+        grouped = {}
+        for f, r in rep["files"].items():
+            for u in r[key]:
+                k = (f, u.get("owner", ""), u["reason"])
+                grouped[k] = grouped.get(k, 0) + 1
+        cur[label][key] = [f"{f}: {n} instance(s)" + (f" [{o}]" if o else "") + f": {why}" for (f, o, why), n in sorted(grouped.items())]
     json.dump(cur, open(doc, "w"), indent=1, sort_keys=True)
     print(json.dumps(rep["summary"], indent=1))
     for f, r in rep["files"].items():
